@@ -39,6 +39,8 @@ Write FOUR independent BENIGN changes to the library source under /tmp/wt/B-{are
       - different timing of internal garbage collection of expired tracks where the statement says it is unobservable;
       - different (but valid) internal capacity / buffering choices, different error message texts.
   * must NOT change anything a statement pins down (ids of simple trackers for the same history, epochs, lengths, which detections are grouped, thresholds and their >= / > sense, values beyond rounding noise of ~1e-6 relative, exactly-once delivery, no deadlock).
+Earlier contributors already wrote benign changes of these kinds - yours must be DIFFERENT in site and kind: reply/dispatch order of the shard workers, sleeps between critical sections, sorted results, shared job queue for the voting threads, partial-snapshot rollback, reworded errors, `P - K^T(HP)` covariance update, polygon vertex start corner, f64 accumulation in distances, exact-tie breaking in NMS / Hungarian layout / gallery eviction, garbage collection timing, `hypot`/f64 intermediates in radius / IoU, Python lists sorted by id, polling `get()`.
+Ideas for new kinds: correct chunking / streaming of results in several messages with matching bookkeeping on the consumer side; extra worker threads or a thread pool used correctly; lazily versus eagerly computed derived data (vertex caches filled and invalidated correctly); a different but correct assignment solver path for tiny problems; bookkeeping moved between structs without changing behaviour; defensive copies; capacity pre-allocation; replacing recursion/iteration styles; replacing `HashMap` by `BTreeMap` (or vice versa) where order is not promised; different internal epoch representation with identical observable epochs; correct early exits that skip provably irrelevant work; float expressions rearranged within ~1e-7 relative.
 Each change should be 5-40 changed lines and look like something a maintainer could plausibly commit. The four changes must be of four different kinds and touch different files where possible.
 
 For each change i in 1..4 deliver in /tmp/wt/B-{area}/out/ (create it):
